@@ -631,13 +631,34 @@ def WorkloadStrictExactFor (fx : Fixes) : Prop :=
     (workloadDeniedG fx root pas k ns labels mlabels false port = true ↔
       effectiveMode pas root { ns := ns, labels := ownLabels k labels mlabels } port = .strict)
 
+theorem lookup_isNone_eq_not_any (l : Labels) (k : String) :
+    (l.lookup k).isNone = !(l.any (fun m => m.1 == k)) := by
+  induction l with
+  | nil => rfl
+  | cons a t ih =>
+    obtain ⟨a1, a2⟩ := a
+    by_cases h : k = a1
+    · subst h; simp [List.lookup]
+    · have h' : (k == a1) = false := by simpa using h
+      have h'' : (a1 == k) = false := by simpa using fun e => h e.symm
+      simp [List.lookup, h', h'', ih]
+
+/-- The model's merge (`maps.MergeCopy`, via `lookup`) is the specification's. -/
+theorem mergeLabels_eq_spec (labels mlabels : Labels) :
+    mergeLabels labels mlabels = ownLabels .workloadEntry labels mlabels := by
+  unfold mergeLabels ownLabels
+  congr 1
+  apply List.filter_congr
+  intro kv _
+  exact lookup_isNone_eq_not_any mlabels kv.1
+
 theorem workloadLabelsFor_all (k : WKind) (labels mlabels : Labels) :
     workloadLabelsFor Fixes.all k labels mlabels = ownLabels k labels mlabels := by
   cases k
   · rfl
   · cases labels with
-    | nil => simp [workloadLabelsFor, ownLabels, mergeLabels]
-    | cons a l => simp [workloadLabelsFor, ownLabels]
+    | nil => simp [workloadLabelsFor, ownLabels]
+    | cons a l => simp [workloadLabelsFor, mergeLabels_eq_spec]
   · rfl
 
 /-- **ambient_workload_strict_exact.**  Pods, WorkloadEntries and inline ServiceEntry endpoints get the policies of
